@@ -11,8 +11,9 @@ from . import reconsim
 from . import walksim
 from . import matchsim
 from . import subsim
+from . import threadsim
 
-OTHER = {'C13': reconsim, 'C15': walksim, 'C17': matchsim, 'C18': subsim}
+OTHER = {'C13': reconsim, 'C15': walksim, 'C17': matchsim, 'C18': subsim, 'C20': threadsim}
 
 
 def _engine_for(prop):
@@ -45,3 +46,10 @@ def signature(case):
         return m.signature(case)
     from .cli import generic_signature
     return generic_signature(case)
+
+
+def extra_evidence(prop, results):
+    m = _engine_for(prop)
+    if hasattr(m, 'extra_evidence'):
+        return m.extra_evidence(prop, results)
+    return {}
